@@ -54,7 +54,7 @@ def objective_terms(at, P, ps, pg, ins, measurables):
             terms += [float(weight * x) for x in np.asarray(r.get_alloc()[name], dtype=float)[mask]]
             continue
         for pop in r.model.pops:
-            if pops and pop.name not in pops:
+            if pops and pop.name not in ([pops] if isinstance(pops, str) else list(pops)):  # a single name selects that population, nothing else
                 continue
             try:
                 vs = pop.get_variable(name)
@@ -274,6 +274,18 @@ def run(prop, tier):
                         index[rid] = dict(label=label, evaluations=K, crash_at=kk, outcome=outcome)
                         observed_restore.setdefault(label["entry"], []).append(before == after)
                         rid += 1
+        # ---------------- the objective alone, for population selections given as one name, a list of one, a list of two (hiv: "males" is part of the name "females")
+        for sel in ("females", "males", ["females"], ["females", "males"]):
+            for single_year in (True, False):
+                prob = budget_problem(at, model="hiv", pops=sel, single_year=single_year)
+                P, ps, pg, ins, opt, measurables, prognames, start = prob
+                terms = objective_terms(at, P, ps, pg, ins, measurables)
+                lib = library_objective(at, P, ps, pg, ins, opt, ins)
+                dg = caller_digest(P, ps, pg, ins)
+                records.append(dict(id=rid, outcome="returned", before=dg, after=dg, t0=FX.fixseq(terms), t1=FX.fixseq(terms), vals=[], lows=[], highs=[], total0=FX.fix(0.0), total1=FX.fix(0.0),
+                                    hastotal=False, haslib=True, lib0=FX.fix(lib), lib1=FX.fix(lib)))
+                index[rid] = dict(label=dict(kind="objective only", entry="Measurable (population selection)", model="hiv", pops=sel, single_year=single_year), f_independent=sum(terms), f_library=lib)
+                rid += 1
         # ---------------- money minimisation under a hard target (every target class, single years and periods), from a scaled-up start
         from atomica.optimization import optimize as _optimize
 
@@ -338,6 +350,35 @@ def run(prop, tier):
                 index[rid] = dict(label=label, evaluations=K, crash_at=kk, outcome=outcome)
                 observed_restore.setdefault("Project.calibrate", []).append(before == after)
                 rid += 1
+        # ---------------- the caller's lists of adjustables / measurables (given in the short form: names only) are the caller's too
+        P, ps, adjustables, measurables = calib_problem(at)
+        adj_names, meas_names = sorted({a[0] for a in adjustables}), sorted({m[0] for m in measurables})
+        before = caller_digest(P, ps, None, None) + "|" + repr(adj_names) + repr(meas_names)
+        newps = P.calibrate(parset=ps, adjustables=adj_names, measurables=meas_names, max_time=30, maxiters=3, randseed=1, default_min_scale=0.5, default_max_scale=1.5)
+        after = caller_digest(P, ps, None, None) + "|" + repr(adj_names) + repr(meas_names)
+        records.append(dict(id=rid, outcome="returned", before=before, after=after, t0=[], t1=[], vals=[], lows=[], highs=[], total0=FX.fix(0.0), total1=FX.fix(0.0), hastotal=False))
+        index[rid] = dict(label=dict(kind="calibration", entry="Project.calibrate (names only)"), adjustables_after=repr(adj_names)[:200], measurables_after=repr(meas_names)[:200])
+        rid += 1
+        # ---------------- a starting value outside the bounds given: refused before anything is evaluated, or brought inside - never returned outside
+        P, ps, adjustables, measurables = calib_problem(at)
+        a0 = adjustables[0]
+        ps.pars[a0[0]].y_factor[a0[1]] = 3.0  # bounds are [0.5, 1.5]
+        for maxiters in (1, 4, 12):
+            before = caller_digest(P, ps, None, None)
+            cnt.n = 0
+            try:
+                newps = P.calibrate(parset=ps, adjustables=[a for a in adjustables], measurables=[m for m in measurables], max_time=30, maxiters=maxiters, randseed=1)
+                outcome = "returned"
+            except Exception as ex:
+                newps, outcome = None, "refused (%s) after %d evaluations" % (type(ex).__name__, cnt.n)
+                if cnt.n > 0:
+                    V.violation("C15 calibration with an out-of-bounds start failed after evaluations had begun", dict(error=str(ex)[:200], evaluations=cnt.n))
+            after = caller_digest(P, ps, None, None)
+            vals = [float(newps.pars[a[0]].y_factor[a[1]]) for a in adjustables] if newps is not None else []
+            records.append(dict(id=rid, outcome="returned" if newps is not None else "aborted", before=before, after=after, t0=[], t1=[], vals=FX.fixseq(vals),
+                                lows=FX.fixseq([a[2] for a in adjustables] if vals else []), highs=FX.fixseq([a[3] for a in adjustables] if vals else []), total0=FX.fix(0.0), total1=FX.fix(0.0), hastotal=False))
+            index[rid] = dict(label=dict(kind="calibration", entry="Project.calibrate (start outside bounds)", maxiters=maxiters), outcome=outcome, y_factors=vals)
+            rid += 1
         # ---------------- step sizes that are not binary fractions: the shortened end year has to come back exactly
         for dt in ([0.3, 0.7] if not thorough else [0.3, 0.7, 1.0 / 3, 0.1, 1.0 / 12, 0.35]):
             for kk in (None, 2):
